@@ -17,7 +17,7 @@ TREES = "typhon/trees.py"
 FILESET = "typhon/files/fileset.py"
 
 EXPECT = {"C03.args": 4, "C03.pred": 2, "C03.partition": 2, "C03.descent": 12, "C03.early": 2, "C03.rows": 4,
-          "C03.empty": 2, "C03.scan": 8, "C03.match": 16, "C03.extent": 2, "C03.member": 1, "C03.api": 2}
+          "C03.empty": 2, "C03.scan": 8, "C03.match": 16, "C03.extent": 2, "C03.member": 1, "C03.api": 2, "C03.answer": 2}
 
 
 def OVspec(a, b):
@@ -1442,6 +1442,11 @@ def _all_forms(flow, expr, at, symmap):
 def run(ctx):
     tree_rules(ctx)
     ctx.attempt(rule_match, ctx)
+    from ..early import rule_early_table
+    rule_early_table(ctx, "C03.answer", [
+        (TREES, "IntervalTree.query", ("_query",), "the tree walk", ()),
+        (TREES, "IntervalTree.query_points", ("_query_point", "_query_points"), "the tree walk", ()),
+    ])
     # match(max_interval=<number>): the number of seconds, fraction included (shared with C04)
     from .C04 import rule_fraction
     ctx.attempt(rule_fraction, ctx, "C03.seconds")
